@@ -206,6 +206,9 @@ class Engine:
             return ClassV(name)
         if name in EXC_BASES:
             return ClassV(name)
+        if name == '__builtins__':
+            # the module-level name `__builtins__` of an imported module: a dict object (process-wide state)
+            return SV(it.heap.get('$global:__builtins__', z3.IntVal(0)), hint=frozenset(['dict']))
         if name in BUILTIN_NAMES:
             return BuiltinV(name)
         it.unsupported(node, f'unknown global name {name!r}')
@@ -521,6 +524,8 @@ class Engine:
         raise Unsupported(f'parameter kind {p.kind}')
 
     # ------------------------------------------------------------------ verification of one contract
+    ghost_clauses = {}
+
     def verify(self, c, max_paths=4000):
         """generate all obligations of contract `c` from the current source; returns dict"""
         t0 = time.time()
@@ -558,7 +563,8 @@ class Engine:
                 obls.append(o)
             paths.append({'labels': list(getattr(run, 'labels', [])), 'id': pid, 'outcome': outcome[0], 'detail': str(outcome[1])[:200] if len(outcome) > 1 else '',
                           'n_obls': len(run.obls), 'events': [(e[0], e[2].get('lineno')) for e in run.events]})
-        return {'contract': c, 'fi': fi, 'obls': obls, 'paths': paths, 'gen_s': time.time() - t0, 'feas_checks': feas_checks}
+        return {'contract': c, 'fi': fi, 'obls': obls, 'paths': paths, 'gen_s': time.time() - t0, 'feas_checks': feas_checks,
+                'ghost_defs': sorted(self.ghost_clauses.get(c.id, ()))}
 
     def run_path(self, it, run, c, fi):
         counter = [0]
@@ -582,6 +588,8 @@ class Engine:
                 run.assume(g)
                 if meta and meta.get('static'):
                     it.entry_static[nm] = meta
+                if meta and meta.get('ghost_def'):
+                    self.ghost_clauses.setdefault(c.id, set()).add(nm)
         # the pre-state may have been extended by the precondition (lazy arrays): re-snapshot
         it.pre_heap = run.heap.snapshot()
         if not run.feasible(z3.BoolVal(True)):
